@@ -26,13 +26,13 @@ type leafKind struct {
 // classes[i] = representatives of one (size, align) class; rotated by position.
 var classes = [][]leafKind{
 	{{"struct{}", []string{"%T{}", "%T{}", "%T{}"}}}, // (0,1)
-	{{"bool", []string{"false", "true", "false"}}, {"int8", []string{"1", "-2", "77"}}, {"uint8", []string{"1", "254", "77"}}},                  // (1,1)
-	{{"int16", []string{"1", "-2", "30000"}}, {"uint16", []string{"1", "65534", "30000"}}},                                                      // (2,2)
-	{{"[3]byte", []string{"%T{1, 2, 3}", "%T{}", "%T{255, 254, 253}"}}},                                                                         // (3,1)
-	{{"int32", []string{"1", "-2", "1 << 30"}}, {"float32", []string{"1.5", "%T(rt.NegZero32)", "0"}}},                                                      // (4,4)
+	{{"bool", []string{"false", "true", "false"}}, {"int8", []string{"1", "-2", "77"}}, {"uint8", []string{"1", "254", "77"}}},                            // (1,1)
+	{{"int16", []string{"1", "-2", "30000"}}, {"uint16", []string{"1", "65534", "30000"}}},                                                                // (2,2)
+	{{"[3]byte", []string{"%T{1, 2, 3}", "%T{}", "%T{255, 254, 253}"}}},                                                                                   // (3,1)
+	{{"int32", []string{"1", "-2", "1 << 30"}}, {"float32", []string{"1.5", "%T(rt.NegZero32)", "0"}}},                                                    // (4,4)
 	{{"int64", []string{"1", "-2", "1 << 62"}}, {"*int", []string{"nil", "&rt.IntA", "&rt.IntB"}}, {"float64", []string{"0", "%T(rt.NegZero)", "3e300"}}}, // (8,8)
-	{{"string", []string{`""`, `"a"`, `"a longer string value"`}}, {"any", []string{"nil", "[]int{1}", `"s"`}}},                                        // (16,8)
-	{{"[]byte", []string{"nil", "%T{1}", "%T{1, 2, 3}"}}},                                                                                       // (24,8)
+	{{"string", []string{`""`, `"a"`, `"a longer string value"`}}, {"any", []string{"nil", "[]int{1}", `"s"`}}},                                           // (16,8)
+	{{"[]byte", []string{"nil", "%T{1}", "%T{1, 2, 3}"}}},                                                                                                 // (24,8)
 }
 
 // ---- shape model ----------------------------------------------------------
@@ -792,35 +792,53 @@ func main() {
 	flag.Parse()
 
 	var all []*shape
-	if *tier == "thorough" {
+	// VERIF_SHAPES=mini: a reduced shape set (compiles in a few seconds) used by the mutation sweep as a first
+	// stage; mutants that survive it are run against the full quick tier. Never used by a registered check.
+	mini := os.Getenv("VERIF_SHAPES") == "mini"
+	if mini {
+		all = append(all, flatShapes(2)...)
+		all = append(all, embedShapes("E1_", "embed", 1, combos(2, 4), -1, 0)...)
+		all = append(all, embedShapes("E2_", "embed", 2, uniform(2, 4), -1, 0)...)
+		all = append(all, embedShapes("E3_", "embed", 3, uniform(3, 2), -1, 0)...)
+		all = append(all, embedShapes("P1_", "embedptr", 1, uniform(1, 4), 0, 0)...)
+		all = append(all, embedShapes("P2b_", "embedptr", 2, uniform(2, 2), 1, 0)...)
+		all = append(all, specialShapes()...)
+		if *prop == "" || *prop == "C04" {
+			all = append(all, joinShapes(1, uniform(2, 3), false, "J1_")...)
+			all = append(all, joinShapes(2, uniform(3, 2), false, "J2_")...)
+			all = append(all, joinShapes(2, uniform(3, 2), true, "J2e_")...)
+		}
+	} else if *tier == "thorough" {
 		all = append(all, flatShapes(4)...)
 	} else {
 		all = append(all, flatShapes(3)...)
 	}
-	all = append(all, embedShapes("E1_", "embed", 1, combos(2, 4), -1, 0)...)
-	all = append(all, embedShapes("E2_", "embed", 2, combos(4, 4), -1, 0)...)
-	if *tier == "thorough" {
-		all = append(all, embedShapes("E3_", "embed", 3, combos(6, 3), -1, 0)...)
-	} else {
-		all = append(all, embedShapes("E3_", "embed", 3, uniform(3, 4), -1, 0)...)
-	}
-	// pointer embedding at each level of depth 1 and 2
-	all = append(all, embedShapes("P1_", "embedptr", 1, combos(2, 4), 0, 0)...)
-	all = append(all, embedShapes("P2a_", "embedptr", 2, uniform(2, 4), 0, 0)...)
-	all = append(all, embedShapes("P2b_", "embedptr", 2, uniform(2, 4), 1, 0)...)
-	all = append(all, specialShapes()...)
-	if *prop == "" || *prop == "C04" {
+	if !mini {
+		all = append(all, embedShapes("E1_", "embed", 1, combos(2, 4), -1, 0)...)
+		all = append(all, embedShapes("E2_", "embed", 2, combos(4, 4), -1, 0)...)
 		if *tier == "thorough" {
-			all = append(all, joinShapes(1, combos(4, 4), false, "J1_")...)
-			all = append(all, joinShapes(2, combos(6, 3), false, "J2_")...)
+			all = append(all, embedShapes("E3_", "embed", 3, combos(6, 3), -1, 0)...)
 		} else {
-			all = append(all, joinShapes(1, combos(4, 3), false, "J1_")...)
-			all = append(all, joinShapes(2, uniform(3, 4), false, "J2_")...)
+			all = append(all, embedShapes("E3_", "embed", 3, uniform(3, 4), -1, 0)...)
 		}
-		all = append(all, joinShapes(3, uniform(4, 4), false, "J3_")...)
-		all = append(all, joinShapes(1, combos(4, 3), true, "J1e_")...)
-		all = append(all, joinShapes(2, uniform(3, 4), true, "J2e_")...)
-		all = append(all, joinShapes(3, uniform(4, 3), true, "J3e_")...)
+		// pointer embedding at each level of depth 1 and 2
+		all = append(all, embedShapes("P1_", "embedptr", 1, combos(2, 4), 0, 0)...)
+		all = append(all, embedShapes("P2a_", "embedptr", 2, uniform(2, 4), 0, 0)...)
+		all = append(all, embedShapes("P2b_", "embedptr", 2, uniform(2, 4), 1, 0)...)
+		all = append(all, specialShapes()...)
+		if *prop == "" || *prop == "C04" {
+			if *tier == "thorough" {
+				all = append(all, joinShapes(1, combos(4, 4), false, "J1_")...)
+				all = append(all, joinShapes(2, combos(6, 3), false, "J2_")...)
+			} else {
+				all = append(all, joinShapes(1, combos(4, 3), false, "J1_")...)
+				all = append(all, joinShapes(2, uniform(3, 4), false, "J2_")...)
+			}
+			all = append(all, joinShapes(3, uniform(4, 4), false, "J3_")...)
+			all = append(all, joinShapes(1, combos(4, 3), true, "J1e_")...)
+			all = append(all, joinShapes(2, uniform(3, 4), true, "J2e_")...)
+			all = append(all, joinShapes(3, uniform(4, 3), true, "J3e_")...)
+		}
 	}
 
 	gens := make([]*gen, *shards)
